@@ -655,6 +655,174 @@ def literal_to_lean(items, target, srcvar, leanvar, params, where, report, conv,
     return "{\n" + ",\n".join(lines) + " }", inh, reads
 
 
+
+# --------------------------------------------------------------------------------------------
+# small imperative bodies over `self` of the tempering container (cache maintenance)
+# --------------------------------------------------------------------------------------------
+def find_fn_unique(src, name, file):
+    """(body, params) of the only `fn name` WITH a body in the file (trait declarations without body are skipped)"""
+    hits = []
+    for m in re.finditer(r"\bfn\s+%s\b" % re.escape(name), src):
+        i = m.end()
+        if src[i] == "<":
+            depth = 0
+            while True:
+                if src[i] == "<":
+                    depth += 1
+                elif src[i] == ">" and src[i - 1] != "-":
+                    depth -= 1
+                    if depth == 0:
+                        break
+                i += 1
+            i += 1
+        p0 = src.index("(", i)
+        p1 = match_close(src, p0)
+        j = p1 + 1
+        while src[j] not in "{;":
+            j += 1
+        if src[j] == ";":
+            continue
+        hits.append((src[j + 1 : match_close(src, j)], src[p0 + 1 : p1]))
+    if len(hits) != 1:
+        raise Unknown("%s: expected exactly one fn %s with a body, found %d" % (file, name, len(hits)))
+    return hits[0]
+
+
+def split_stmts(text, where):
+    """top-level statements of a block: `if … {…} [else {…}]` items and `…;` items (a trailing expression is kept)"""
+    out, i, n = [], 0, len(text)
+    while i < n:
+        while i < n and text[i].isspace():
+            i += 1
+        if i >= n:
+            break
+        if re.match(r"if\b", text[i:]):
+            k = i
+            depth = 0
+            while text[k] != "{" or depth:
+                if text[k] in "([":
+                    depth += 1
+                elif text[k] in ")]":
+                    depth -= 1
+                k += 1
+            e = match_close(text, k)
+            cond, then = text[i + 2 : k], text[k + 1 : e]
+            j = e + 1
+            els = None
+            m = re.match(r"\s*else\s*\{", text[j:])
+            if m:
+                k2 = j + m.end() - 1
+                e2 = match_close(text, k2)
+                els = text[k2 + 1 : e2]
+                j = e2 + 1
+            elif re.match(r"\s*else\b", text[j:]):
+                raise Unknown("%s: `else if` chain is not modelled" % where)
+            out.append(("if", cond, then, els))
+            i = j
+            m = re.match(r"\s*;", text[i:])
+            if m:
+                i += m.end()
+        else:
+            depth, k = 0, i
+            while k < n and (text[k] != ";" or depth):
+                if text[k] in "([{":
+                    depth += 1
+                elif text[k] in ")]}":
+                    depth -= 1
+                k += 1
+            out.append(("stmt", text[i:k], k < n))
+            i = k + 1
+    return out
+
+
+def split_op(s, op):
+    parts, depth, cur, i = [], 0, "", 0
+    while i < len(s):
+        if s[i] in "([{":
+            depth += 1
+        elif s[i] in ")]}":
+            depth -= 1
+        if depth == 0 and s.startswith(op, i):
+            parts.append(cur)
+            cur = ""
+            i += len(op)
+            continue
+        cur += s[i]
+        i += 1
+    parts.append(cur)
+    return parts
+
+
+def translate_cond(c, where):
+    c = squash(c)
+    while c.startswith("(") and match_close(c, 0) == len(c) - 1:
+        c = c[1:-1]
+    parts = split_op(c, "||")
+    if len(parts) > 1:
+        return "(" + " || ".join(translate_cond(x, where) for x in parts) + ")"
+    parts = split_op(c, "&&")
+    if len(parts) > 1:
+        return "(" + " && ".join(translate_cond(x, where) for x in parts) + ")"
+    if c.startswith("!"):
+        return "(!" + translate_cond(c[1:], where) + ")"
+    m = re.fullmatch(r"self\.(\w+)\.is_none\(\)", c)
+    if m:
+        return "tc.%s.isNone" % m.group(1)
+    m = re.fullmatch(r"self\.(\w+)\.is_some\(\)", c)
+    if m:
+        return "tc.%s.isSome" % m.group(1)
+    m = re.fullmatch(r"self\.graphs\.len\(\)%2(==|!=)(\d+)", c)
+    if m:
+        return "(tc.graphs.length %% 2 %s %s)" % (m.group(1), m.group(2))
+    m = re.fullmatch(r"self\.graphs\.is_empty\(\)", c)
+    if m:
+        return "tc.graphs.isEmpty"
+    raise Unknown("%s: condition `%s` is outside the whitelist" % (where, c))
+
+
+def translate_self_block(text, where, allow, env=None):
+    """sequence of whitelisted statements on `self` -> list of Lean `let tc := …` lines (strings).
+    allow: set of statement kinds permitted here ("reset", "rebuild", "push", "check", "ok")."""
+    env = dict(env or {})
+    lines = []
+    stmts = split_stmts(text, where)
+    for idx, st in enumerate(stmts):
+        if st[0] == "if":
+            _, cond, then, els = st
+            c = translate_cond(cond, where)
+            t = translate_self_block(then, where, allow - {"check", "ok", "push"}, env)
+            e = translate_self_block(els, where, allow - {"check", "ok", "push"}, env) if els is not None else []
+            blk = lambda ls: "(" + "; ".join(ls + ["tc"]) + ")"
+            lines.append("let tc := if %s then %s else %s" % (c, blk(t), blk(e)))
+            continue
+        _, body, has_semi = st
+        b = squash(body)
+        if not b:
+            continue
+        m = re.fullmatch(r"self\.(graph_ham_eq_[ab])=None", b)
+        if m and "reset" in allow:
+            lines.append("let tc := { tc with %s := none }" % m.group(1))
+            continue
+        m = re.fullmatch(r"letgraphs=self\.make_(first|second)_subgraphs\(\)", b)
+        if m and "rebuild" in allow:
+            env["graphs"] = m.group(1)
+            continue
+        m = re.fullmatch(r"self\.(graph_ham_eq_[ab])=Some\(Self::make_eqs_from_graphs\(graphs\)\)", b)
+        if m and "rebuild" in allow:
+            if "graphs" not in env:
+                raise Unknown("%s: `graphs` used before `let graphs = self.make_*_subgraphs()`" % where)
+            lines.append("let tc := { tc with %s := some (%s tc.graphs) }" % (m.group(1), "eqsFirst" if env["graphs"] == "first" else "eqsSecond"))
+            continue
+        if b == "self.graphs.push((q,beta))" and "push" in allow:
+            lines.append("let tc := { tc with graphs := tc.graphs ++ [(q, beta)] }")
+            continue
+        if b == "self.graphs.last().map(|(g,_)|g.can_swap_graphs(&q)).unwrap_or(Ok(()))?" and "check" in allow and idx == 0:
+            continue  # the compatibility check: returns Err before anything is modified (modelled as a precondition)
+        if b == "Ok(())" and "ok" in allow and idx == len(stmts) - 1 and not has_semi:
+            continue
+        raise Unknown("%s: statement `%s` is outside the whitelist (reset of a cache to None / rebuild of a cache from a sub-slice / push of the new replica / if-else over is_none, parity)" % (where, " ".join(body.split())))
+    return lines
+
 # --------------------------------------------------------------------------------------------
 # generation of Fields.lean
 # --------------------------------------------------------------------------------------------
@@ -888,6 +1056,82 @@ def gen_fields(repo):
     body, _ = find_impl_fn(tsrc, r"impl<M>SerializeTemperingContainer<M>where.*", "into_tempering_container_from_vec", T.st.file)
     if squash(body) != "assert_eq!(self.graphs.len(),graph_rngs.len());self.into_tempering_container(container_rng,graph_rngs.into_iter())":
         raise Unknown("into_tempering_container_from_vec changed shape")
+
+    # ---- tempering container: construction, add_qmc_stepper, cache maintenance ---------------------
+    timpl = r"impl<R,Q>TemperingContainer<R,Q>where.*"
+    out.append("/-! ## Tempering container: `new`, `add_qmc_stepper`, and who writes the `graph_ham_eq_*` caches -/\n")
+    body, params = find_impl_fn(tsrc, timpl, "new", T.st.file)
+    pm = re.fullmatch(r"(\w+):R", squash(params))
+    if not pm:
+        raise Unknown("TemperingContainer::new: parameter list %r" % params)
+    items = parse_struct_literal(body, ["Self", "TemperingContainer"], "TemperingContainer.new")
+    lit, inh, _ = literal_to_lean(items, T, "self", "tc", [pm.group(1)], "TemperingContainer.new", report, "TemperingContainer.new")
+    out.append("/-- `TemperingContainer::new(rng)` -/")
+    out.append("def TemperingContainer.new {F64 R Q : Type} (%s : R) : TemperingContainer F64 R Q :=\n    %s\n" % (pm.group(1), lit.replace(":= default", ":= default")))
+
+    body, params = find_impl_fn(tsrc, timpl, "add_qmc_stepper", T.st.file)
+    if squash(params) != "&mutself,q:Q,beta:f64":
+        raise Unknown("add_qmc_stepper: parameter list %r" % squash(params))
+    lines = translate_self_block(body, "TemperingContainer::add_qmc_stepper", {"reset", "push", "check", "ok"})
+    if not any("graphs ++" in l for l in lines):
+        raise Unknown("add_qmc_stepper no longer pushes the new replica")
+    out.append("/-- `add_qmc_stepper(&mut self, q, beta)` after the `can_swap_graphs` check passed (on `Err` nothing is modified):\nwhich caches are reset, under which guard, and the push -/")
+    out.append("def TemperingContainer.addQmcStepper {F64 R Q : Type} (tc : TemperingContainer F64 R Q) (q : Q) (beta : F64) :\n    TemperingContainer F64 R Q :=\n  %s\n  tc\n" % "\n  ".join(lines))
+    report.append({"conversion": "TemperingContainer.add_qmc_stepper", "field": "graph_ham_eq_a/b", "kind": "statements(%s)" % " | ".join(lines), "source": "add_qmc_stepper"})
+
+    body, params = find_impl_fn(tsrc, timpl, "make_ham_equalities", T.st.file)
+    if squash(params) != "&mutself":
+        raise Unknown("make_ham_equalities: parameter list %r" % squash(params))
+    lines = translate_self_block(body, "TemperingContainer::make_ham_equalities", {"rebuild"})
+    out.append("/-- `make_ham_equalities(&mut self)`: `eqsFirst` / `eqsSecond` stand for `make_eqs_from_graphs(make_first/second_subgraphs())` -/")
+    out.append("def TemperingContainer.makeHamEqualities {F64 R Q : Type} (eqsFirst eqsSecond : List (Q × F64) → List Bool)\n    (tc : TemperingContainer F64 R Q) : TemperingContainer F64 R Q :=\n  %s\n  tc\n" % "\n  ".join(lines))
+    report.append({"conversion": "TemperingContainer.make_ham_equalities", "field": "graph_ham_eq_a/b", "kind": "statements(%s)" % " | ".join(lines), "source": "make_ham_equalities"})
+
+    guards = []
+    for fname in ("tempering_step", "parallel_tempering_step"):
+        fbody, _ = find_fn_unique(tsrc, fname, T.st.file)
+        sq = squash(fbody)
+        if sq.count("make_ham_equalities") != 1:
+            raise Unknown("%s: expected exactly one call of make_ham_equalities" % fname)
+        gm = re.search(r"if((?:(?!if|\{).)*)\{self\.make_ham_equalities\(\)\}", sq)
+        if not gm:
+            raise Unknown("%s: the call of make_ham_equalities is not of the form `if <guard> { self.make_ham_equalities() }`" % fname)
+        guards.append(translate_cond(gm.group(1), fname + " cache guard"))
+    if guards[0] != guards[1]:
+        raise Unknown("tempering_step and parallel_tempering_step guard make_ham_equalities differently: %s vs %s" % tuple(guards))
+    if len(re.findall(r"\bmake_ham_equalities\s*\(", tsrc)) != 3:
+        raise Unknown("make_ham_equalities is called from somewhere else than the two tempering steps")
+    out.append("/-- the guard under which `tempering_step` and `parallel_tempering_step` call `make_ham_equalities` -/")
+    out.append("def TemperingContainer.rebuildGuard {F64 R Q : Type} (tc : TemperingContainer F64 R Q) : Bool :=\n  %s\n" % guards[0])
+    report.append({"conversion": "TemperingContainer.tempering_step", "field": "graph_ham_eq_a/b", "kind": "guard(%s)" % guards[0], "source": "tempering_step / parallel_tempering_step"})
+
+    # the phases take a cache out and put the same vector back (shape-checked; modelled by hand as "unchanged")
+    for fname, fld, sub, sw, recv in (("tempering_a", "a", "first", "perform_swaps", "self"), ("tempering_b", "b", "second", "perform_swaps", "self"),
+                                      ("parallel_tempering_a", "a", "first", "parallel_perform_swaps", "tc"), ("parallel_tempering_b", "b", "second", "perform_swaps", "tc")):
+        fbody, _ = find_fn_unique(tsrc, fname, T.st.file)
+        want = "lethameqs=%s.graph_ham_eq_%s.take().unwrap();letgraphs=%s.make_%s_subgraphs();%s.total_swaps+=%s(rng,graphs,&hameqs);%s.graph_ham_eq_%s=Some(hameqs);" % (recv, fld, recv, sub, recv, sw, recv, fld)
+        if squash(fbody) != want:
+            raise Unknown("%s changed shape (expected: take the cache, swap on the %s sub-slice through %s, put the same cache back): `%s`" % (fname, sub, sw, " ".join(fbody.split())))
+    # census of every other write to the caches / to the replica list
+    spans = item_spans(tsrc)
+    writers = set()
+    for m in re.finditer(r"\bgraph_ham_eq_[ab]\s*=(?!=)|\bgraph_ham_eq_[ab]\s*\.\s*(?:take|replace|insert|get_or_insert\w*|as_mut)\b", tsrc):
+        fns = [sp for sp in spans if sp[0] == "fn" and sp[2] <= m.start() <= sp[3]]
+        writers.add(max(fns, key=lambda sp: sp[2])[1] if fns else "-")
+    allowed_writers = {"add_qmc_stepper", "make_ham_equalities", "tempering_a", "tempering_b", "parallel_tempering_a", "parallel_tempering_b"}
+    if not writers <= allowed_writers:
+        raise Unknown("the graph_ham_eq caches are also written in %s (not modelled)" % sorted(writers - allowed_writers))
+    growers = set()
+    for m in re.finditer(r"\bgraphs\s*\.\s*(?:push|pop|remove|insert|truncate|clear|retain|drain|swap_remove|extend|append|resize\w*|sort\w*|reverse|rotate\w*)\s*\(", tsrc):
+        fns = [sp for sp in spans if sp[0] == "fn" and sp[2] <= m.start() <= sp[3]]
+        fn = max(fns, key=lambda sp: sp[2]) if fns else None
+        if fn and any("#[cfg(test)]" in x or "#[test]" in x for sp in spans if sp[2] <= m.start() <= sp[3] for x in sp[5]):
+            continue
+        growers.add(fn[1] if fn else "-")
+    if not growers <= {"add_qmc_stepper", "unwrap_chunk"}:
+        raise Unknown("the replica list is also restructured in %s (not modelled)" % sorted(growers - {"add_qmc_stepper", "unwrap_chunk"}))
+    out.append("/-- every fn that writes a `graph_ham_eq_*` cache (all modelled or shape-checked) -/")
+    out.append("def cacheWriters : List String := %s\n" % norm_list(sorted(writers)))
 
     # ---- metadata -------------------------------------------------------------------------------
     out.append("/-! ## Metadata used by the driver (JSON keys the real serde output must have) and by the report -/\n")
